@@ -6,10 +6,10 @@ CONSTANTS
   OffSet <- MCOff
   Q = 8
   ThinLin = 600
-  ThinIdent = 20
+  ThinIdent = 30
   ThinDov = 24
   ThinFit = 120
-  ThinDec = 120
+  ThinDec = 160
   LongN = {41, 61}
   Emit = TRUE
 INVARIANTS Theorems Vector
